@@ -163,6 +163,38 @@ impl IoLoopHandle {
     }
 }
 
+#[cfg(amiquip_verif)]
+impl IoLoopHandle {
+    /// Verification hook: the two queue ends a client handle owns, so a single-threaded probe
+    /// can perform the halves of a blocking call separately.
+    pub(super) fn verif_ends(
+        &self,
+    ) -> (
+        &MioSyncSender<IoLoopMessage>,
+        &CrossbeamReceiver<Result<ChannelMessage>>,
+    ) {
+        (&self.tx, &self.rx)
+    }
+}
+
+#[cfg(amiquip_verif)]
+impl IoLoopHandle0 {
+    /// Verification hook: the channel-0-only queue ends.
+    pub(super) fn verif_ends0(
+        &self,
+    ) -> (
+        &MioSyncSender<CrossbeamSender<ConnectionBlockedNotification>>,
+        &MioSyncSender<Option<u16>>,
+        &CrossbeamReceiver<Result<IoLoopHandle>>,
+    ) {
+        (
+            &self.set_blocked_tx,
+            &self.alloc_chan_req_tx,
+            &self.alloc_chan_rep_rx,
+        )
+    }
+}
+
 pub(super) struct IoLoopHandle0 {
     common: IoLoopHandle,
     set_blocked_tx: MioSyncSender<CrossbeamSender<ConnectionBlockedNotification>>,
